@@ -31,6 +31,26 @@ class Ident:
                     if isinstance(t, ast.Attribute) and isinstance(t.value, ast.Name) and t.value.id == "self" and isinstance(st.value, ast.Name) and st.value.id in params:
                         out[t.attr] = st.value.id
             out["__init__"] = fn
+        else:
+            # a record class (class-based NamedTuple / dataclass): the annotated fields are the constructor's parameters, in order
+            try:
+                _m2, nd = self.repo.lookup(cls_qual)
+            except Exception:
+                nd = None
+            if isinstance(nd, ast.ClassDef):
+                is_record = any((isinstance(b, ast.Name) and b.id == "NamedTuple") or (isinstance(b, ast.Attribute) and b.attr == "NamedTuple") for b in nd.bases) \
+                    or any("dataclass" in ast.unparse(d) for d in nd.decorator_list)
+                names = [(st.target.id, st.value is not None) for st in nd.body if isinstance(st, ast.AnnAssign) and isinstance(st.target, ast.Name)]
+                if is_record and names:
+                    src = "def __init__(self, " + ", ".join(n + ("=None" if has_default else "") for n, has_default in names) + "): pass"
+                    try:
+                        fn = ast.parse(src).body[0]
+                    except SyntaxError:
+                        fn = None
+                    if fn is not None:
+                        for n, _d in names:
+                            out[n] = n
+                        out["__init__"] = fn
         self._fields[cls_qual] = out
         return out
 
